@@ -60,13 +60,10 @@ CHECKS = {
               "This decides one small mechanism of the property. The variable store, control flow, argument binding and mixins "
               "are NOT covered: the scope-stack harness did not finish under CBMC (BTreeMap behind Arc<RefCell>), see DESIGN.md.",
               "bounded model checking (Kani/CBMC) of BinaryOp::precedence against the specification table"),
-    "C07": _m("Bounded model checking with bit-precise doubles: fuzzy equality is reflexive, symmetric, never true beyond 1e-11, "
-              "true within 4e-12 of a bucket centre; fuzzy <, ==, > form a trichotomy; fuzzy_as_int is total and exact to the "
-              "tolerance; is_zero/positive/negative partition; min/max/clamp are total incl. NaN - for every double in the windows.",
+    "C07": _m("Bounded model checking with bit-precise doubles. Kani: fuzzy equality is reflexive, symmetric, transitive, never true beyond 1e-11, true within 4e-12 of a bucket centre; fuzzy <,==,> trichotomy; fuzzy_as_int total and exact; zero/sign partition; min/max/clamp total incl. NaN; the evaluator's ordering kernel (Value::cmp) agrees with == on magnitudes around the tolerance; Number::to_string and Serializer::write_float print the canonical spelling of the correctly rounded 10-place decimal in both styles. Engine F (MIR->C->CBMC): fuzzy_round on every double in [0, 2^40); Sass modulo (sign, magnitude, value).",
               "DESIGN.md section 4, C07",
-              "fuzzy_round, modulo and number printing are outside (CBMC mis-models f64 `%`; float formatting does not finish). "
-              "Trusted: Kani/CBMC float encoding, the epsilon stubs (re-validated natively each run).",
-              "bounded model checking (Kani/CBMC, IEEE-754 bit-blasting) of the fuzzy comparison kernels over value windows"),
+              "Trusted: Kani/CBMC float encoding; the f64::powi table stub (re-validated natively each run); the `{:.10}` digit-string contract stub and the element-wise Vec::append stub (printing); engine F's C models and MIR->C translation (validated natively on ~24k inputs each run). Outside: the digit generation of `{:.10}`, literal parsing, sass:math (libm), doubles outside the windows.",
+              'bounded model checking (Kani/CBMC, IEEE-754 bit-blasting) + MIR->C->CBMC for the fmod-based kernels'),
     "C09": _m("Bounded model checking over a universe of small values: the separate not_equals routine is the exact negation of "
               "==, and == is reflexive and symmetric, for every pair of values of the stated shapes (numbers with convertible "
               "units and fuzzy-equal magnitudes, strings, booleans, null, lists with every separator/bracket combination).",
@@ -88,42 +85,26 @@ CHECKS = {
               "Only list index normalisation is decided. Argument bookkeeping is stubbed (BTree-backed); string and map functions "
               "are outside. Trusted: Kani/CBMC, the powi table, the positional-only ArgumentResult stubs.",
               "bounded model checking (Kani/CBMC) of builtin list functions against the documented index rule"),
-    "C15": _m("Bounded model checking with full-width symbolic doubles: the clamping constructors and opacity functions keep "
-              "channels integer-valued in [0,255] and alpha in [0,1] for every f64 input incl. NaN/inf; the 3-digit hex decision "
-              "is exact over all 2^24 colours.",
+    "C15": _m('Bounded model checking: clamping constructors and opacity functions keep channels integer-valued in [0,255] and alpha in [0,1] for every f64 incl. NaN/inf; the 3-digit hex decision is exact over all 2^24 colours; hex literals of 3/4 (6/8 thorough) arbitrary digits denote the CSS channels (#abc = #aabbcc, #abcd = #aabbccdd); engine F: hue_to_rgb stays in [m1, m2] on a lattice, hence HSL/HWB channels stay in [0,255].',
               "DESIGN.md section 4, C15",
-              "Colour-space conversions, named colours and the HSL-based functions are outside the claim. Trusted: Kani/CBMC's "
-              "IEEE-754 encoding of min/max/round/compare.",
-              "bounded model checking (Kani/CBMC, bit-precise floats) of Color constructors and hex decision"),
-    "C16": _m("Bounded model checking of the parenthesisation decisions used when a calculation is printed: whenever the rule "
-              "omits parentheses, the flat text read with CSS precedence denotes the same rational value as the operation tree, "
-              "for all operator pairs and all integer leaves in [-4,4].",
+              "Colour-space round trips, named colours and the HSL-based function identities are outside. Trusted: Kani/CBMC's IEEE-754 encoding, engine F's models and translation.",
+              'bounded model checking (Kani/CBMC, bit-precise floats) of Color constructors, hex reader/decision; MIR->C->CBMC for hue_to_rgb'),
+    "C16": _m('Bounded model checking: (b) whenever the parenthesisation rules omit parentheses, the flat text read with CSS precedence denotes the same rational value as the operation tree (all operator pairs, integer leaves in [-4,4]); (a) clamp() reduces to a number only over mutually convertible units, to the right operand, and never requests a conversion outside the table.',
               "DESIGN.md section 4, C16",
-              "Decides the decision functions only, not the byte emission nor min/max/clamp simplification. Trusted: Kani/CBMC, "
-              "the 30-line calc reader in kani/src/c16.rs.",
-              "bounded model checking (Kani/CBMC) of parenthesize_calculation_rhs / precedence against exact rational evaluation"),
-    "C18": _m("Bounded model checking of the character-level lexer: CR, CRLF and FF lex as exactly one newline token, every other "
-              "code point as itself, for every ASCII source of 3-4 bytes and every code point.",
+              'Decides the decision functions and the clamp guard/reduction, not the byte emission (reaches core::fmt::write) nor min/max/operate_internal. The kept-calculation path of clamp() is cut at verify_length (recorded in evidence). Trusted: Kani/CBMC, the convert / possibly-compatible / inspect_number stubs, the 30-line calc reader in kani/src/c16.rs.',
+              'bounded model checking (Kani/CBMC) of calc parenthesisation rules and clamp() against exact rational / table oracles'),
+    "C18": _m("Bounded model checking of the character-level lexer (CR, CRLF and FF lex as exactly one newline token, every other code point as itself) and of the indented syntax's indentation reader (indentation of the next non-blank line, whitespace-only lines ignored, mixed tabs/spaces rejected) for every buffer of 5 (7 thorough) tokens over {space, tab, newline, letter}.",
               "DESIGN.md section 4, C18",
-              "Only newline normalisation is decided; agreement of the three statement parsers is outside. Trusted: Kani/CBMC.",
-              "bounded model checking (Kani/CBMC) of TokenLexer::next against a reference tokeniser"),
-    "C19": _m("Bounded model checking of span arithmetic: every span the lexer hands to error construction lies inside the file "
-              "(low <= high, within bounds) for any cursor/start over arbitrary code points; token positions stay inside their "
-              "token's bytes.",
+              'Agreement of the three statement parsers, BOM/@charset, `_`/`-` normalisation are outside. Trusted: Kani/CBMC, RandomState and fmt stubs.',
+              'bounded model checking (Kani/CBMC) of TokenLexer::next and SassParser::peek_indentation against reference readers'),
+    "C19": _m("Bounded model checking of span arithmetic: every span the lexer hands to error construction lies inside the file for any cursor/start over arbitrary code points; token positions stay inside their token's bytes; re-lexed (interpolated) multi-byte text attributed to a shorter span falls back to the whole span instead of tripping Span::subspan.",
               "DESIGN.md section 4, C19",
-              "Delivery counts of @warn/@debug, quiet, and error rendering are outside. Trusted: Kani/CBMC, the 8-byte layout of "
-              "codemap::Span (asserted).",
-              "bounded model checking (Kani/CBMC) of Lexer span computation and Span::subspan assertions"),
-    "C01": {
-        "text": "Bounded model checking of the real trivia readers (both syntaxes' comment/whitespace skippers): for every token "
-                "buffer inside the bound they terminate (unwinding assertions), do not panic, keep the cursor inside the buffer "
-                "and report errors with spans inside the source. A non-terminating input is replayed natively under a watchdog.",
-        "design_ref": "DESIGN.md section 4, C01",
-        "note": "Kernel obligations only: whole-stylesheet totality is far outside a bit-precise engine. Trusted: Kani/CBMC, the "
-                "RandomState and fmt::format stubs. Bounds: 3-6 tokens; the statement/expression/selector parsers, evaluator and "
-                "serializer are outside the claim.",
-        "technique": "bounded model checking (Kani/CBMC) of parser primitives with unwinding assertions; native hang replay",
-    },
+              'Delivery counts of @warn/@debug, quiet, and error rendering are outside. Trusted: Kani/CBMC, the 8-byte layout of codemap::Span (asserted).',
+              'bounded model checking (Kani/CBMC) of Lexer span computation and Span::subspan assertions'),
+    "C01": _m("Bounded model checking of real parser/lexer kernels: both syntaxes' comment and whitespace skippers terminate (unwinding assertions), never panic, keep the cursor inside the buffer and report error spans inside the source for every buffer of 3-6 arbitrary tokens; escape sequences decode totally (no panic in char::from_u32, at most 8 tokens consumed); error-span construction over re-lexed multi-byte text never trips Span::subspan; clamp() never reaches a unit conversion outside the table. A non-terminating input is extracted from the CBMC trace and replayed natively under a watchdog.",
+              "DESIGN.md section 4, C01",
+              'Kernel obligations only: whole-stylesheet totality is far outside a bit-precise engine. Trusted: Kani/CBMC, the RandomState / fmt::format / convert stubs, the kept-calculation cut of the clamp harness. Outside: statement/expression/selector parsers, evaluator, serializer, inputs longer than the token bounds.',
+              'bounded model checking (Kani/CBMC) of parser primitives with unwinding assertions; native hang replay'),
     "C08": {
         "text": "Bounded model checking over all unit pairs/triples: the real comparable() predicate coincides with the conversion "
                 "table (dumped from the real HashMap on every run) and with the CSS classes; factors are reflexive, invertible and "
